@@ -38,14 +38,14 @@ class C06(Check):
         q = tier == 'quick'
         return {
             'objid_sweep': 14, 'spec_sweep': 10,
-            'objid_random': 300 if q else 60000,
-            'objid_scalar': 1500 if q else 300000,
-            'objid_reject': 400 if q else 60000,
-            'spec_random': 300 if q else 60000,
-            'spec_scalar': 1500 if q else 300000,
+            'objid_random': 300 if q else 150000,
+            'objid_scalar': 1500 if q else 600000,
+            'objid_reject': 400 if q else 150000,
+            'spec_random': 300 if q else 150000,
+            'spec_scalar': 1500 if q else 600000,
             'spec_run2d_strings': 4 if q else 8,
-            'spec_reject': 400 if q else 60000,
-            'string_ids': 200 if q else 30000,
+            'spec_reject': 400 if q else 150000,
+            'string_ids': 200 if q else 80000,
         }
 
     # ---------------------------------------------------------------- generators
